@@ -190,6 +190,7 @@ func checkC06(w *World, r *Report) {
 	x4(w, r, x)
 	// X-5: inside the ledger, mempool-overlay operations never change what the
 	// consensus overlay reads or commits (C18 L-1, decided by abstract interpretation)
+	x6(w, r, "X-6", x.funcs)
 	if r.importObs(w, func(t *Report) { l1(w, t) }, "L-1", "X-5") == 0 {
 		r.Undecided("X-5", "ledger-isolation", "the ledger's overlay semantics could not be evaluated")
 	}
@@ -450,4 +451,57 @@ func x4(w *World, r *Report, x *ExecCtx) {
 			}
 		}
 	}
+}
+
+// ---- X-6: no in-place arithmetic on an object that IS shared state
+
+// x6: a 256-bit value handed out by an accessor may be the stored object itself
+// (GovParams.MinValidatorStake() returns the field, GasPrice() a copy). The
+// three-address arithmetic of holiman/uint256 writes into its destination, so a
+// destination whose provenance is a field of the governance parameters or of a
+// controller is a write to that state — from wherever it is made (a mempool
+// check, a query, an error message). Item types (Account, Stake, Reward, …) are
+// excluded: their fields are mutated in place by design and tracked as item effects.
+func x6(w *World, r *Report, rule string, fns []*ssa.Function) {
+	n := 0
+	for _, fn := range fns {
+		if inLedgerPkg(w, fn) {
+			continue
+		}
+		for _, c := range CallsIn(fn) {
+			dest, ok := mutatesZ(c.Common())
+			if !ok {
+				continue
+			}
+			n++
+			var roots []rootVal
+			w.rootsOf(dest, &vframe{fn: fn}, 0, &roots, map[ssa.Value]bool{})
+			for _, rt := range roots {
+				ld, isLd := rt.v.(*ssa.UnOp)
+				if !isLd || ld.Op != token.MUL {
+					continue
+				}
+				fa, isFA := ld.X.(*ssa.FieldAddr)
+				if !isFA || baseFresh(fa.X) {
+					continue
+				}
+				owner, f := fieldOf(fa.X.Type(), fa.Field)
+				if owner == nil || f == nil || owner.Obj().Pkg() == nil {
+					continue
+				}
+				if !(isCSType(owner) || owner.Obj().Name() == "GovParams") {
+					continue
+				}
+				// the owner's own methods are its primitives (who may call them is decided elsewhere)
+				if rt.fr != nil && rt.fr.fn == fn && fn.Signature.Recv() != nil {
+					if rn, _ := deref(fn.Signature.Recv().Type()).(*types.Named); rn != nil && rn.Obj() == owner.Obj() {
+						continue
+					}
+				}
+				key := fmt.Sprintf("%s:%s.%s", w.FName(fn), owner.Obj().Name(), f.Name())
+				r.Violate(rule, "in-place:"+key, fmt.Sprintf("an in-place 256-bit operation writes into %s.%s itself (the value was handed out by an accessor that returns the stored object, not a copy): shared state changes outside its owner", owner.Obj().Name(), f.Name()), nil, site(w, c))
+			}
+		}
+	}
+	r.OK(rule, "in-place:scanned", fmt.Sprintf("%d in-place 256-bit operations scanned: none writes into a governance parameter or a controller field", n))
 }
